@@ -39,8 +39,13 @@ def variants(rng, base, tier, k):
             for e in final:
                 r = rng.random()
                 if e[0] == "file" and r < 0.3:
-                    init.append(("file", e[1], "g:%d:%d" % (rng.randrange(100000, 200000), rng.choice([0, 7, 70000]))))
-                    ops.append(("write", e[1], e[2]))
+                    if rng.random() < 0.5:
+                        # same size, other bytes, and the replacement keeps an old timestamp (mv / cp -p / rsync -t / tar x)
+                        init.append(("file", e[1], "g:%d:%s" % (rng.randrange(100000, 200000), e[2].split(":")[2])))
+                        ops.append(("writeold", e[1], e[2]))
+                    else:
+                        init.append(("file", e[1], "g:%d:%d" % (rng.randrange(100000, 200000), rng.choice([0, 7, 70000]))))
+                        ops.append(("write", e[1], e[2]))
                 elif e[0] == "file" and r < 0.45 and any(e[1].startswith(a[0] + b"/") for a in dart):
                     ops.append(("write", e[1], e[2]))              # added later
                 else:
@@ -51,6 +56,7 @@ def variants(rng, base, tier, k):
                 ops.append(("rm", extra))
             c["init"] = init
             half = len(ops) // 2
+            strat = rng.choice("lc")
             c["ops"] = [("commit", strat, [])] + ops[:half] + [("commit", rng.choice("lc"), [])] + ops[half:] + [("commit", strat, [])]
             c["how"] = "incremental"
         else:
